@@ -44,6 +44,25 @@ def oracle(s, t, canon):
     return why
 
 
+def ghost_oracle(s, t):
+    """C02f (no guard): the GHOST tree - the blank run F1 drops put back at the end of each field name, read off
+    pos / size - satisfies the property on every accepted input; returns a list of reasons (empty = holds)"""
+    import copy
+    from luqum.tree import SearchField
+    g = copy.deepcopy(t)
+    why = []
+    for path, n in nodes(g):
+        if isinstance(n, SearchField) and n.pos is not None and n.size is not None and n.expr.size is not None:
+            e = n.expr
+            k = n.size - 1 - (len(e.head) + e.size + len(e.tail))
+            name2 = s[n.pos:n.pos + k]
+            if not (k >= len(n.name) and name2.startswith(n.name) and all(c.isspace() for c in name2[len(n.name):])):
+                why.append("%s: source text before the colon %r is not the name %r followed by blanks"
+                           % (list(path), name2, n.name))
+            n.name = name2
+    return why + oracle(s, g, c01.canon)
+
+
 def latent_replay():
     """replay p_expression_or on  a | OR+blank | OrOperation(b, c)  (what a right-associative table would
     do on 'a OR b OR c'): returns the implementation's result as a Gallina item"""
@@ -73,6 +92,7 @@ def correspond(model_ok, res):
     seen = set()
     span_cases, span_inputs = [], []
     n_nodes = 0
+    n_f1 = 0
     classes = {}
     for s, (k, v) in zip(strings, results):
         kinds[k] = kinds.get(k, 0) + 1
@@ -87,6 +107,11 @@ def correspond(model_ok, res):
             res.failures.append(({"input": s, "why": why[:5]}, "F1" if f1 else None))
         elif exact and not c01.NUM.search(s):
             res.failures.append(({"input": s, "why": ["text differs outside numerals"] + exact[:3]}, None))
+        gwhy = ghost_oracle(s, v)          # C02f: holds on EVERY accepted input, F1 included
+        if gwhy:
+            res.failures.append(({"input": s, "why": ["C02f: the ghost tree (blanks put back after field names) "
+                                                       "is not located"] + gwhy[:5]}, None))
+        n_f1 += 1 if f1 else 0
         cnt = 0
         for _, n in nodes(v):
             cnt += 1
@@ -105,7 +130,10 @@ def correspond(model_ok, res):
                 "accepted input longer than 3 chars whose tree has at least 2 nodes")
     res.samples = [s for s in strings[len(PG.MALFORMED):len(PG.MALFORMED) + 6]]
     res.distribution = {"outcomes": kinds, "max_len": max(map(len, strings)), "nodes_checked": n_nodes,
-                        "node_classes": classes}
+                        "node_classes": classes, "accepted_with_blank_before_colon(F1)": n_f1}
+    res.notes.append("C02f: on every accepted input (%d of them F1 inputs) the ghost tree - field names followed by "
+                     "the blank run up to the colon, read off pos/size - satisfies the whole property on the "
+                     "implementation's tree (every node, both slices up to numerals, tiling, root span)" % n_f1)
     if not model_ok:
         res.model_error = "model did not build"
         return
@@ -170,9 +198,19 @@ SPEC = {
              {"module": "C02t", "target": "props/C02t.vo",
               "theorems": ["C02_token_any_tables", "C02_token_partial", "C02_guarded", "C02_token_exact",
                            "C02t_lexer_locality", "C02t_context_free_lexing_refuted", "C02t_any_slice_refuted",
-                           "C02t_nonvacuous"]}],
+                           "C02t_nonvacuous"]},
+             # no guard: the property holds of the ghost tree (proofs/SpanDropProofs.v)
+             {"module": "C02f", "target": "props/C02f.vo",
+              "theorems": ["C02f", "C02f_ghost", "C02f_no_field", "C02f_same_spans", "C02f_action"]}],
     "correspond": correspond,
-    "statement": "if parsing s returns a tree and no semantic action dropped text or re-spelled a token (ghost events "
+    "statement": "C02f (NO guard): for EVERY accepted input and every node at every path, both spans lie inside the "
+                 "input, the children's widened spans tile the node's span, the root's widened span is the whole input, "
+                 "and the two slices are the printed forms (up to numeral re-spelling) of the node's GHOST: the same "
+                 "node with the blank runs that search_field drops put back at the end of the field names (same classes, "
+                 "pos, size, head, tail everywhere) - F1 changes the printed text of a SearchField and of what is above "
+                 "it, never a position; a node with no SearchField at or below it is located as the guarded theorems say "
+                 "(C02f_no_field). "
+                 "Guarded forms: if parsing s returns a tree and no semantic action dropped text or re-spelled a token (ghost events "
                  "of the model), then for every node s[pos:pos+size] = str(node), the slice widened by head/tail = "
                  "str(node, head_tail=True), the children's widened spans lie inside the node's span in order "
                  "without overlapping, and the root's widened span is (0, len(s)); for ANY LR tables under the extra "
@@ -201,8 +239,12 @@ SPEC = {
                   "the same tokens; a token start never exposes TIME_RE's look-behind window) and a node predicate "
                   "(pos/size designate the text of a token run, the printed inner text is that run with numerals "
                   "re-spelled, heads/tails are blank) kept for every node by every semantic action and by the driver "
-                  "for any tables. PARTIAL: inputs that lose text (F1) are covered by correspondence and "
-                  "the Python oracle only. Table facts (left associativity of OR/AND) are "
+                  "for any tables. C02f removes the guard: a table-free congruence theorem (every semantic action maps "
+                  "arguments related by 'field names extended by blanks' to related results with the same events) and a "
+                  "stack invariant in which every value carries its ghost, located by running the C02r action lemma on "
+                  "the ghosts (search_field: on the name token that keeps its tail in its lexeme). F1 inputs still "
+                  "violate the property's own text (the SearchField does not print its slice): KNOWN-FINDING, now with "
+                  "the exact deviation proved. Table facts (left associativity of OR/AND) are "
                   "checked by computation on the generated tables on every run.",
     "trusted_base": [
         "Coq 8.16.1 kernel (vm_compute for witnesses, table facts and correspondence; no native_compute); no axioms",
